@@ -167,3 +167,62 @@ class paint_from_ot_transform_conformance:
     ensures = {
         "same-affine-as-the-table-denotes": lambda result: all(abs(a - b) <= 1e-9 * max(1.0, abs(b)) for a, b in zip(result["nanoemoji"], result["fonttools"])),
     }
+
+
+# ---- the other direction: a nanoemoji transform paint written out (to_ufo_paint) and compiled
+# by fontTools' colour-table builder denotes the affine the paint object stands for ----
+
+
+def _gen_transform_paint(rng, i=0):
+    kinds = ["PaintTransform", "PaintTranslate", "PaintScale", "PaintScaleAroundCenter", "PaintScaleUniform", "PaintScaleUniformAroundCenter", "PaintRotate", "PaintRotateAroundCenter", "PaintSkew", "PaintSkewAroundCenter"]
+    kind = kinds[i % len(kinds)]
+    s = lambda: rng.choice([0.5, 1.5, -0.75, 0.25, 1.25])
+    c = lambda: (rng.choice([100, -40, 333, 12]), rng.choice([-250, 75, 410, 9]))  # x and y always differ
+    a = lambda: rng.choice([30.0, -45.0, 90.0, 12.5])
+    f = {
+        "PaintTransform": lambda: {"transform": (s(), rng.choice([0.0, 0.25]), rng.choice([0.0, -0.5]), s(), float(c()[0]), float(c()[1]))},
+        "PaintTranslate": lambda: dict(zip(("dx", "dy"), c())),
+        "PaintScale": lambda: {"scaleX": 0.5, "scaleY": 1.5},
+        "PaintScaleAroundCenter": lambda: {"scaleX": 0.5, "scaleY": 1.25, "center": c()},
+        "PaintScaleUniform": lambda: {"scale": s()},
+        "PaintScaleUniformAroundCenter": lambda: {"scale": s(), "center": c()},
+        "PaintRotate": lambda: {"angle": a()},
+        "PaintRotateAroundCenter": lambda: {"angle": a(), "center": c()},
+        "PaintSkew": lambda: {"xSkewAngle": a() / 3, "ySkewAngle": a() / 5},
+        "PaintSkewAroundCenter": lambda: {"xSkewAngle": a() / 3, "ySkewAngle": a() / 5, "center": c()},
+    }[kind]()
+    return {"kind": kind, "fields": f}
+
+
+def _to_ufo_affine(kind, fields):
+    from fontTools.colorLib.builder import LayerListBuilder
+    from nanoemoji import paint as P
+    from nanoemoji.colors import Color
+    from picosvg.geometric_types import Point
+    from picosvg.svg_transform import Affine2D
+
+    red = Color(255, 0, 0, 1.0)
+    kw = dict(fields)
+    if "center" in kw:
+        kw["center"] = Point(*kw["center"])
+    if "transform" in kw:
+        kw["transform"] = tuple(kw["transform"])
+    obj = getattr(P, kind)(paint=P.PaintGlyph(glyph="g", paint=P.PaintSolid(color=red)), **kw)
+    ufo_dict = obj.to_ufo_paint([red])
+    ot_paint = LayerListBuilder().buildPaint(ufo_dict)
+    return {"nanoemoji": tuple(obj.gettransform()), "compiled": tuple(ot_paint.getTransform()), "format": int(ot_paint.Format), "own_format": int(obj.format)}
+
+
+@contract("nanoemoji.paint.PaintScaleAroundCenter.to_ufo_paint", props=["C16", "C01"])
+class paint_to_ufo_transform_conformance:
+    bounded_only = True
+    gen = _gen_transform_paint
+    native_call = _to_ufo_affine
+    n_quick = 60
+    n_thorough = 1000
+    ensures = {
+        # every transform paint class, stratified: what is handed to the font compiler denotes
+        # the paint's own affine (to OpenType fixed-point precision), under the paint's format
+        "written-paint-denotes-the-same-affine": lambda result: result["format"] == result["own_format"]
+        and all(abs(a - b) <= 1e-3 * max(1.0, abs(b)) for a, b in zip(result["compiled"], result["nanoemoji"])),
+    }
